@@ -344,7 +344,8 @@ func (cr *concRun) checkEvents() {
 		}
 		removedBefore[ev.V] = true
 	}
-	for v, info := range ins {
+	for _, v := range sortedKeys(ins) {
+		info := ins[v]
 		_, isPresent := present[v]
 		n := reported[v]
 		switch {
@@ -422,7 +423,8 @@ func (cr *concRun) checkLoads() {
 			byKey[k] = append(byKey[k], l)
 		}
 	}
-	for k, ls := range byKey {
+	for _, k := range sortedKeys(byKey) {
+		ls := byKey[k]
 		if len(ls) < 2 {
 			continue
 		}
